@@ -15,6 +15,8 @@ mut:  -            the file as it is
       t<len>       truncated to <len> bytes
       c<pos>.<val> byte <pos> replaced by <val>
 
+All paths in the manifest are file names relative to the directory of the manifest.
+
 Manifest lines (tab separated):
   F part kind path pieces plen crc32 adler32 clens
         a valid file; the reference (gzip.decompress / bz2.decompress of the whole file) returned exactly P (asserted here)
@@ -174,8 +176,8 @@ def w_file(task):
         with open(os.path.join(out, "p%d.bin" % i), "rb") as f:
             blobs.append(f.read())
     data = b"".join(blobs)
-    path = os.path.join(out, "f%d.%s" % (fidx, EXT[kind]))
-    with open(path, "wb") as f:
+    path = "f%d.%s" % (fidx, EXT[kind])
+    with open(os.path.join(out, path), "wb") as f:
         f.write(data)
     P = payload_of(pieces)
     r = reference(kind, data)
@@ -192,7 +194,7 @@ def w_file(task):
             exp = "E"
         else:
             exp = path + ".m%d" % k
-            with open(exp, "wb") as f:
+            with open(os.path.join(out, exp), "wb") as f:
                 f.write(v)
         lines.append("M\t" + part + "\t" + head + "\t" + mut + "\t" + exp)
     return fidx, lines
@@ -230,6 +232,8 @@ def find_sizes(kind, fam_v, fam_off, lo_c, hi_c, cache):
             cache[k] = len(compress_piece(kind, (fam_v, fam_off, L, "")))
         return cache[k]
     lo, hi = 0, max(64, hi_c + 64)
+    while clen(hi) < lo_c:              # compressible families need more payload than compressed bytes
+        hi *= 2
     while lo < hi:                      # smallest L with clen(L) >= lo_c (clen is monotone up to a few bytes of noise)
         mid = (lo + hi) // 2
         if clen(mid) >= lo_c:
@@ -251,6 +255,37 @@ def find_sizes(kind, fam_v, fam_off, lo_c, hi_c, cache):
 def w_find(task):
     kind, v, off, lo_c, hi_c = task
     return task, find_sizes(kind, v, off, lo_c, hi_c, {})
+
+
+# Slices used to hit an exact *compressed* length. bzip2's compressed size jumps by several bytes when one payload
+# byte is added, so one slice family does not reach every length; the families are tried in order until every
+# wanted length has a piece (the content of the payload is irrelevant for the alignment cases).
+FAM1 = [("I", 0), ("H", 0), ("I", 400000), ("H", 100000), ("I", 600000), ("H", 300000), ("I", 800000), ("H", 500000),
+        ("I", 1000000), ("H", 700000)]
+FAM2 = [("I", 200000), ("H", 200000), ("I", 1200000), ("H", 400000), ("I", 1400000), ("H", 600000), ("I", 1600000),
+        ("H", 800000), ("I", 1800000), ("H", 900000)]
+
+
+def find_exact(pool, kind, fams, wanted):
+    """{c: piece} for the compressed lengths in `wanted` (a set); lengths no family reaches are left out"""
+    got = {}
+    for v, off in fams:
+        miss = sorted(c for c in wanted if c not in got)
+        if not miss:
+            break
+        ranges = []                              # contiguous-ish windows over the missing lengths
+        lo = hi = miss[0]
+        for c in miss[1:]:
+            if c - hi > 40:
+                ranges.append((lo, hi))
+                lo = c
+            hi = c
+        ranges.append((lo, hi))
+        for task, found in pool.map(w_find, [(kind, v, off, a, b) for a, b in ranges], chunksize=1):
+            for c, L in found.items():
+                if c in wanted and c not in got:
+                    got[c] = (v, off, L, "")
+    return got
 
 
 # ----------------------------------------------------------------------------------------------------------------
@@ -302,65 +337,45 @@ def build_corpus(tier, out, jobs):
     files = lattice_files(tier)           # (part, kind, pieces)
     muts_of = {}                          # index in files -> list of mutations (M lines)
 
-    # ---- align: find payload lengths for exact compressed lengths
+    # ---- align: pieces with exact compressed lengths, so that stream ends and the file end fall on / next to the
+    #      read-ahead grids (libbz2 freads 5000 bytes, zlib's gz layer 8192, stdio 4096, buffer decompressors 10240)
     w, centers, c1_targets = align_plan(tier)
-    tasks = []
+    unreachable = []
     for kind in KINDS:
-        for c in centers:
-            tasks.append((kind, "I", 0, c - w, c + w))
-        # second stream: complements to the next two multiples of 5000 and small ones
-        tasks.append((kind, "I", 200000, 14, 140))
-        for c in centers:
-            for m in (1, 2):
-                t = ((c + w + 40) // 5000 + m) * 5000 - c
-                tasks.append((kind, "I", 200000, max(14, t - 2 * w - 2), t + 2 * w + 2))
-        tasks.append((kind, "I", 200000, 5995, 6005))
-    tasks = sorted(set(tasks))
-    size_map = {}                         # (kind, v, off) -> {c: L}
-    for task, found in pool.map(w_find, tasks):
-        size_map.setdefault(task[:3], {}).update(found)
-    missing = 0
-    for kind in KINDS:
-        m1 = size_map[(kind, "I", 0)]
-        m2 = size_map[(kind, "I", 200000)]
         empty_c = 20 if kind == "gzip" else 14
-        first = [(c, ("I", 0, m1[c], "")) for c in c1_targets if c in m1]
-        missing += sum(1 for c in c1_targets if c not in m1)
-        first.append((empty_c, ("I", 0, 0, "")))
-        small = min(c for c in m2 if c > empty_c + 10)
-        first.append((small, ("I", 200000, m2[small], "")))
+        msmall = find_exact(pool, kind, FAM2, set(range(empty_c + 1, empty_c + 60)))
+        small = min(msmall)
+        m1 = find_exact(pool, kind, FAM1, set(c1_targets))
+        unreachable += ["%s first=%d" % (kind, c) for c in c1_targets if c not in m1]
+        pairs = []                                    # (c1, p1, c2)
+        first = [(c, m1[c]) for c in c1_targets if c in m1] + [(empty_c, ("I", 0, 0, "")), (small, msmall[small])]
         for c1, p1 in first:
             c2s = {empty_c, small, 100, 6000}
-            base = (c1 + 40) // 5000
-            for m in (1, 2):
-                for d in range(-2, 3):
-                    c2s.add((base + m) * 5000 + d - c1)
-            for c2 in sorted(c2s):
-                if c2 == empty_c:
-                    p2 = ("I", 200000, 0, "")
-                elif c2 in m2:
-                    p2 = ("I", 200000, m2[c2], "")
-                else:
-                    missing += 1
-                    continue
-                files.append(("align", kind, [p1, p2]))
-        # three streams: both inner boundaries and the file end near multiples of 5000
+            for grid in (5000, 8192):
+                base = (c1 + 40) // grid
+                for m in (1, 2):
+                    for d in range(-2, 3):
+                        c2s.add((base + m) * grid + d - c1)
+            pairs += [(c1, p1, c2) for c2 in sorted(c2s) if c2 >= empty_c]
+        triples = []                                  # (c1, e2, c3): both inner boundaries and the end near 5000*n
         for c1 in (4999, 5000, 5001, small):
-            if c1 not in m1 and c1 != small:
-                continue
-            p1 = ("I", 0, m1[c1], "") if c1 in m1 else ("I", 200000, m2[small], "")
             for e2 in (9999, 10000, 10001, 7000):
-                c2 = e2 - c1
-                if c2 not in m2:
-                    continue
                 for c3 in (empty_c, small, 15000 - 1 - e2, 15000 - e2, 15000 + 1 - e2):
-                    if c3 == empty_c:
-                        p3 = ("H", 0, 0, "")
-                    elif c3 in m2:
-                        p3 = ("I", 200000, m2[c3], "")
-                    else:
-                        continue
-                    files.append(("align", kind, [p1, ("I", 200000, m2[c2], ""), p3]))
+                    triples.append((c1, e2 - c1, c3))
+        wanted2 = set(c2 for _, _, c2 in pairs) | set(c2 for _, c2, _ in triples) | set(c3 for _, _, c3 in triples)
+        wanted2 -= {empty_c}
+        m2 = find_exact(pool, kind, FAM2, wanted2)
+        m2[empty_c] = ("I", 200000, 0, "")
+        m2.setdefault(small, msmall[small])
+        unreachable += ["%s later=%d" % (kind, c) for c in sorted(wanted2) if c not in m2]
+        for c1, p1, c2 in pairs:
+            if c2 in m2:
+                files.append(("align", kind, [p1, m2[c2]]))
+        for c1, c2, c3 in triples:
+            p1 = m1.get(c1) if c1 != small else msmall[small]
+            if p1 is not None and c2 in m2 and c3 in m2:
+                files.append(("align", kind, [p1, m2[c2], m2[c3]]))
+    missing = len(unreachable)
 
     # ---- ltrunc: truncations / corruptions of larger files (reference evaluated per case)
     big = [[("I", 0, 65536, "")], [("C", 0, 300000, "")], [("I", 0, 40000, ""), ("I", 40000, 40000, "")],
@@ -420,8 +435,8 @@ def build_corpus(tier, out, jobs):
             if reference(kind, data) != ("B", P):
                 raise SystemExit("C09 gen self-check failed on sweep base " + fmt_pieces(pieces))
             sidx = len(sweeps)
-            path = os.path.join(out, "s%d.%s" % (sidx, EXT[kind]))
-            with open(path, "wb") as f:
+            path = "s%d.%s" % (sidx, EXT[kind])
+            with open(os.path.join(out, path), "wb") as f:
                 f.write(data)
             sweeps.append((kind, pieces, path, data, P, blobs))
             total = len(data) * (1 + V)
@@ -441,13 +456,13 @@ def build_corpus(tier, out, jobs):
             for v in local:
                 if v not in res_id:
                     res_id[v] = len(res_id) + 1
-                    with open("%s.res%d" % (path, res_id[v]), "wb") as f:
+                    with open(os.path.join(out, "%s.res%d" % (path, res_id[v])), "wb") as f:
                         f.write(v)
             table.extend(res_id[local[c - 1]] if c else 0 for c in codes)
         assert len(table) == len(data) * (1 + V)
         if sys.byteorder != "little":
             table.byteswap()
-        with open(path + ".tab", "wb") as f:
+        with open(os.path.join(out, path + ".tab"), "wb") as f:
             table.tofile(f)
         # self-check of the reference on the valid prefixes: truncation at a stream boundary yields that many streams
         e = 0
@@ -456,7 +471,7 @@ def build_corpus(tier, out, jobs):
             e += len(b)
             cum += p[2]
             k = table[e]
-            got = open("%s.res%d" % (path, k), "rb").read() if k else None
+            got = open(os.path.join(out, "%s.res%d" % (path, k)), "rb").read() if k else None
             if got != P[:cum]:
                 raise SystemExit("C09 gen self-check failed: reference on whole-stream prefix of " + fmt_pieces(pieces))
         sweep_lines.append("S\tsweep\t%s\t%s\t%s\t%s\t%s\t%d\t%s\t%d" % (
@@ -465,7 +480,7 @@ def build_corpus(tier, out, jobs):
     with open(os.path.join(out, "manifest.txt"), "w") as mf:
         # small things first (bounds are iterated smallest first): sweep files, align, lattice, ltrunc
         order = {"align": 1, "lattice": 2, "ltrunc": 3}
-        mf.write("N\talign targets not reachable with an exact compressed length\t%d\n" % missing)
+        mf.write("N\talign targets not reachable with an exact compressed length\t%d\t%s\n" % (missing, " ".join(unreachable[:40])))
         for ln in sweep_lines:
             mf.write(ln + "\n")
         for fidx in sorted(lines_of, key=lambda i: (order[files[i][0]], i)):
@@ -481,8 +496,8 @@ def build_one(spec, out):
     P = payload_of(pieces)
     if reference(kind, data) != ("B", P):
         raise SystemExit("C09 gen self-check failed: reference does not return the payload for " + spec)
-    path = os.path.join(out, "one." + EXT[kind])
-    with open(path, "wb") as f:
+    path = "one." + EXT[kind]
+    with open(os.path.join(out, path), "wb") as f:
         f.write(data)
     head = "%s\t%s\t%s\t%s\t%s" % (kind, path, pieces_s, digest(P), ",".join(str(len(b)) for b in blobs))
     with open(os.path.join(out, "manifest.txt"), "w") as mf:
@@ -493,7 +508,7 @@ def build_one(spec, out):
             exp = "E"
             if t == "B":
                 exp = path + ".m0"
-                with open(exp, "wb") as f:
+                with open(os.path.join(out, exp), "wb") as f:
                     f.write(v)
             mf.write("M\tone\t" + head + "\t" + mut + "\t" + exp + "\n")
 
